@@ -18,3 +18,6 @@ func EvB(name string, a uint64, b []byte) {}
 
 // FS reports a persistence event.
 func FS(op, path string, off, n int64) {}
+
+// AssertFailed is called right before a failed internal assertion terminates the process.
+func AssertFailed() {}
